@@ -6,7 +6,8 @@
 From Coq Require Import ZArith NArith List Bool.
 Import ListNotations.
 Require Import EmbossV.Bits.Model EmbossV.Bits.Proofs_Int EmbossV.Bits.Proofs_Load EmbossV.Bits.Proofs_Read
-               EmbossV.Bits.Proofs_Write EmbossV.Bits.Proofs_C03.
+               EmbossV.Bits.Proofs_Bcd EmbossV.Bits.Proofs_Write EmbossV.Bits.Proofs_BcdWrite EmbossV.Bits.Proofs_Portable EmbossV.Bits.Proofs_C03
+               EmbossV.Bits.InvertModel EmbossV.Bits.Proofs_Invert.
 Open Scope Z_scope.
 
 (* ---- CouldWriteValue: for every width 1..64 and every C++ integer argument type (std_cty: [u]int8..64_t) ---- *)
@@ -37,6 +38,21 @@ Theorem enum_signed_write_partial : forall ct ut v,
   enum_could_write ct ut (cbits ut) v = Some true.
 Proof. exact enum_could_write_signed_full. Qed.
 
+(* BcdView::CouldWriteValue(ValueType): exact when the argument is a ValueType value, as the signature says
+   (bcd_max w = 10^(w/4) * 2^(w mod 4) - 1, the constant MaxBcd computes) ... *)
+Theorem could_write_bcd_partial : forall argty w v, 1 <= w <= 64 -> in_cty (uty w) v ->
+  bcd_could_write argty w v = Some (v <=? bcd_max w).
+Proof. exact bcd_could_write_spec. Qed.
+
+Theorem max_bcd_is_bcd_max : forall w, 1 <= w <= 64 -> max_bcd (uty w) bcd_fuel w = Some (bcd_max w).
+Proof. exact max_bcd_spec. Qed.
+
+(* ... and refuted for wider argument types: the caller's implicit conversion narrows (finding) *)
+Theorem could_write_bcd_narrowing_refuted :
+  exists argty w v, std_cty argty /\ in_cty argty v /\ 1 <= w <= 64 /\ ~ (0 <= v <= bcd_max w) /\
+                    bcd_could_write argty w v = Some true.
+Proof. exact bcd_could_write_narrowing_refuted_l. Qed.
+
 (* ---- successful writes: Read() gives the value back; every other bit of the container is unchanged ---- *)
 (* write_post o zs off w u zs' :=  length zs' = length zs /\ Forall byte zs' /\
       field_bits (cvl o zs') off w = u /\ forall i outside [off, off+w), bit i of the container is unchanged *)
@@ -57,6 +73,18 @@ Theorem write_read_frame_enum_unsigned : forall o zs off w ut v, zcontainer_ok o
   exists zs', enum_try_write true (zfield o zs off w) ut w v = Some (true, Some zs') /\
               write_post o zs off w v zs' /\ enum_read true (zfield o zs' off w) ut w = Some v.
 Proof. exact write_enum_unsigned_accept_l. Qed.
+
+(* Bcd: the stored pattern is the decimal digits of v, it reads back as v and is Ok() *)
+Theorem write_read_frame_bcd : forall o zs off w argty v, zcontainer_ok o zs -> zfield_ok zs off w ->
+  0 <= v <= bcd_max w -> in_cty (uty w) v ->
+  exists zs', bcd_try_write true (zfield o zs off w) argty w v = Some (true, Some zs') /\
+              write_post o zs off w (to_bcd_spec (bcd_digits w) v) zs' /\
+              bcd_read true (zfield o zs' off w) w = Some v /\ bcd_ok true (zfield o zs' off w) w = Some true.
+Proof. exact write_bcd_accept_l. Qed.
+
+Theorem write_bcd_rejects : forall bv argty w v, 1 <= w <= 64 -> in_cty (uty w) v -> ~ (v <= bcd_max w) ->
+  bcd_try_write true bv argty w v = Some (false, None).
+Proof. exact bcd_try_write_reject. Qed.
 
 Theorem write_read_frame_flag : forall o zs off (b : bool), zcontainer_ok o zs -> zfield_ok zs off 1 ->
   exists zs', flag_try_write true (zfield o zs off 1) b = Some (true, Some zs') /\
@@ -128,6 +156,30 @@ Proof. exact splice_length. Qed.
 Theorem root_container_after : forall root boff bs, (boff + length bs <= length root)%nat ->
   sub_storage (splice root boff bs) boff (length bs) = bs.
 Proof. exact sub_storage_splice. Qed.
+
+(* the EMBOSS_NO_OPTIMIZATIONS runtime performs the same writes (UInt, Int, unsigned enum, Float) *)
+Theorem portable_writes_agree : forall o zs off w, zcontainer_ok o zs -> zfield_ok zs off w ->
+  (forall argty v, std_cty argty -> in_cty argty v ->
+     uint_try_write false (zfield o zs off w) argty w v = uint_try_write true (zfield o zs off w) argty w v) /\
+  (forall argty v, std_cty argty -> in_cty argty v ->
+     int_try_write false (zfield o zs off w) argty w v = int_try_write true (zfield o zs off w) argty w v) /\
+  (forall ut v, std_cty ut -> csigned ut = false -> w <= cbits ut -> in_cty ut v ->
+     enum_try_write false (zfield o zs off w) ut w v = enum_try_write true (zfield o zs off w) ut w v) /\
+  (forall bits, 0 <= bits < 2 ^ w ->
+     float_try_write false (zfield o zs off w) w bits = float_try_write true (zfield o zs off w) w bits).
+Proof. exact portable_writes_agree_l. Qed.
+
+(* ---- write inference (write_inference.py): [invert] mirrors _find_field_reference_path + _invert_expression;
+   storing inv[$logical_value := v] into the referenced field makes the virtual field read back v
+   (integers are unbounded here; the C++ intermediate types of the generated transform are C01/C04 matter, F8) ---- *)
+Theorem invert_correct : forall other e x inv, invert e = Some (EField x, inv) ->
+  forall env v, eval other (update env x (eval other env v inv)) v e = v.
+Proof. exact invert_correct_l. Qed.
+
+Theorem invert_nonvacuous :
+  invert (EFn FAdd [EConst 2; EFn FSub [EFn FSub [EConst 3; EField 7]; EConst 10]])
+  = Some (EField 7, EFn FSub [EConst 3; EFn FAdd [EFn FSub [ELogical; EConst 2]; EConst 10]]).
+Proof. exact invert_example. Qed.
 
 Theorem nonvacuous_writes :
   zcontainer_ok BE [18; 52; 171] /\ zfield_ok [18; 52; 171] 4 12 /\
